@@ -187,7 +187,7 @@ def build_ref(ref, work):
     rc, o, dt = sh(["go", "build", "-o", out, ref["pkg"]], cwd=os.path.join(VERIF, ref["dir"]), env=GOENV, timeout=1800)
     return rc, o, out
 
-def run_harness(binpath, work, tag, seed, tier, replay=None, timeout=1800, extra_args=None):
+def run_harness(binpath, work, tag, seed, tier, replay=None, timeout=1800, extra_args=None, qmul=None):
     ops = os.path.join(work, f"{tag}.ops")
     impl = os.path.join(work, f"{tag}.impl")
     meta = os.path.join(work, f"{tag}.meta")
@@ -200,6 +200,8 @@ def run_harness(binpath, work, tag, seed, tier, replay=None, timeout=1800, extra
     if extra_args:
         cmd += extra_args
     env = dict(GOENV, GOMEMLIMIT="6GiB", **HARNESS_ENV)
+    if qmul and not replay:
+        env["VERIF_QMUL"] = str(qmul)
     rc, o, dt = sh(cmd, cwd=work, env=env, timeout=timeout)
     return rc, o, ops, impl, meta
 
@@ -374,7 +376,7 @@ def run_engine(spec, eng, tier, seed, work, rep, known, cov):
     def one(sh_i):
         tag = f"{name}.{sh_i}"
         s = seed * 1000 + sh_i
-        rc, o, ops, impl, meta = run_harness(binpath, work, tag, s, tier, timeout=to, extra_args=xargs)
+        rc, o, ops, impl, meta = run_harness(binpath, work, tag, s, tier, timeout=to, extra_args=xargs, qmul=eng.get("quick_mul"))
         return sh_i, rc, o, ops, impl, meta
     with concurrent.futures.ThreadPoolExecutor(max_workers=min(16, shards)) as ex:
         results = list(ex.map(one, range(shards)))
